@@ -280,8 +280,7 @@ def handleOp : Handler
       let p : Params := { maxDur := maxDur, fwdDur := fwdDur, revDur := revDur, incS := ⟨incS⟩, incD := ⟨incD⟩, incC := ⟨incC⟩ }
       let res := step env p now pre.toSt op
       let cls := match res with | .ok _ => "ok" | .err => "err" | .notFound => "err" | .panic => "panic"
-      if cls != result then mismatch "result" cls result
-      else if result != "ok" then "ok"
+      if result != "ok" then (if cls != result then mismatch "result" cls result else "ok")
       else
         match parseObs nextId' aucs' index' bals' with
         | none => badInput "post"
@@ -316,6 +315,7 @@ def handleOp : Handler
               | _ => "ok"
           if pred != "ok" then pred else
           -- (1) model vs implementation
+          if cls != result then mismatch "result" cls result else
           match res with | .ok s' => compareSt s' post na nd | _ => "ok"
     | _, _, _, _, _, _, _, _, _, _, _, _, _, _, _ => badInput "parse"
   | _ => badInput "arity"
